@@ -1,15 +1,97 @@
-(* C15 - PKCS11 layer (placeholder until Token proofs land). *)
+(* C15 - The PKCS#11 layer finds the right key and hands the token the right octets. *)
 From Coq Require Import String.
-From KV Require Import Base.Prelude Base.Exn Base.Bytes Model.Data Model.Wire Model.KsrPolicy Model.Token Model.Sign
-  Proofs.WireProofs.
+From KV Require Import Base.Prelude Base.Exn Base.Bytes Model.Data Model.Wire Model.Token Proofs.TokenProofs Proofs.WireProofs Proofs.Bridge15.
 
-Theorem C15_as_revoked_only_bit7 : forall k k',
-  as_revoked k = OK k' ->
-  k_flags k' = Z.lor (k_flags k) 128 /\
-  (forall i, i <> 7 -> Z.testbit (k_flags k') i = Z.testbit (k_flags k) i) /\
-  Z.testbit (k_flags k') 7 = true /\
-  k_id k' = k_id k /\ k_ttl k' = k_ttl k /\ k_proto k' = k_proto k /\ k_alg k' = k_alg k /\
-  k_pubtxt k' = k_pubtxt k /\ k_pub k' = k_pub k /\
-  calculate_key_tag k' = OK (k_tag k').
-Proof. exact as_revoked_only_bit7. Qed.
-Print Assumptions C15_as_revoked_only_bit7.
+(* look-up: for every layout (any number of slots and objects) *)
+Theorem C15_lookup_none : forall mi ss label cls hh,
+  (forall s, In s ss -> matches label cls s = []) -> find_in_slots mi ss label cls hh = OK None.
+Proof. exact lookup_none. Qed.
+Print Assumptions C15_lookup_none.
+
+Theorem C15_lookup_unique : forall mi pre s post label cls hh o pub,
+  (forall s', In s' pre -> matches label cls s' = []) -> matches label cls s = [o] ->
+  (if cls =? CKO_SECRET then OK None else o_pubkey o) = OK pub -> known_ktype (o_ktype o) = true ->
+  find_in_slots mi (pre ++ s :: post) label cls hh = OK (Some (key_of mi s o label cls hh pub)).
+Proof. exact lookup_unique. Qed.
+Print Assumptions C15_lookup_unique.
+
+Theorem C15_duplicate_is_error : forall mi pre s post label cls hh o1 o2 more,
+  (forall s', In s' pre -> matches label cls s' = []) -> matches label cls s = o1 :: o2 :: more ->
+  find_in_slots mi (pre ++ s :: post) label cls hh = Raise RuntimeError.
+Proof. exact duplicate_is_error. Qed.
+Print Assumptions C15_duplicate_is_error.
+
+Theorem C15_lookup_sound : forall mi ss label cls hh k,
+  find_in_slots mi ss label cls hh = OK (Some k) ->
+  exists pre s post o pub, ss = pre ++ s :: post /\ (forall s', In s' pre -> matches label cls s' = []) /\
+    matches label cls s = [o] /\ k = key_of mi s o label cls hh pub /\
+    (if cls =? CKO_SECRET then OK None else o_pubkey o) = OK pub.
+Proof. exact lookup_sound. Qed.
+Print Assumptions C15_lookup_sound.
+
+Theorem C15_sessions_only_logged_in : forall m s, In s (sessions m) <-> In s m /\ sl_login_ok s = true.
+Proof. exact sessions_only_logged_in. Qed.
+Print Assumptions C15_sessions_only_logged_in.
+
+(* the public key derived from an EC point is the token's X|Y (C14 theorem, restated for this property) *)
+Theorem C15_ec_pubkey_is_token_key : forall point curve q,
+  p11_ec_point_to_pub point curve = OK (Some q) ->
+  len q * 8 / 2 = curve /\ (point = 4 :: q \/ exists l, point = 4 :: l :: 4 :: q).
+Proof. exact ecdsa_token_point_sound. Qed.
+Print Assumptions C15_ec_pubkey_is_token_key.
+
+(* octets handed to the token; H (hashes) and token_sign are parameters *)
+Theorem C15_token_input_raw_rsa : forall H key data alg h oid r,
+  truthy (pk_hash_hsm key) = false -> digestinfo alg = Some (h, oid) -> pk_pub key <> None ->
+  rsa_decode (pk_pubraw key) = OK r ->
+  format_data_for_signing H key data alg = OK (CKM_RSA_X_509, emsa_pkcs1_v15 (rsa_bits r / 8) (oid ++ H h data)).
+Proof. exact token_input_raw_rsa. Qed.
+Print Assumptions C15_token_input_raw_rsa.
+
+Theorem C15_emsa_full_modulus_length : forall k T, len T + 3 <= k -> len (emsa_pkcs1_v15 k T) = k.
+Proof. exact (emsa_length (fun _ _ => []) (fun _ _ _ => Raise 0)). Qed.
+Print Assumptions C15_emsa_full_modulus_length.
+
+Theorem C15_token_input_hash_on_token : forall H key data alg m,
+  truthy (pk_hash_hsm key) = true -> mech_hash_on_hsm alg = Some m -> m <> CKM_EDDSA ->
+  format_data_for_signing H key data alg = OK (m, data).
+Proof. exact token_input_hash_on_token. Qed.
+Print Assumptions C15_token_input_hash_on_token.
+
+Theorem C15_token_input_raw_ecdsa : forall H key data alg,
+  truthy (pk_hash_hsm key) = false -> alg = ECDSAP256SHA256 \/ alg = ECDSAP384SHA384 ->
+  format_data_for_signing H key data alg = OK (CKM_ECDSA, H (if alg =? ECDSAP256SHA256 then 256 else 384) data).
+Proof. exact token_input_raw_ecdsa. Qed.
+Print Assumptions C15_token_input_raw_ecdsa.
+
+Theorem C15_never_sign_symmetric : forall H token_sign key data alg,
+  pk_ktype key = CKK_AES \/ pk_ktype key = CKK_DES3 -> sign_using_p11 H token_sign key data alg = Raise ValueError.
+Proof. exact never_sign_symmetric. Qed.
+Print Assumptions C15_never_sign_symmetric.
+
+Theorem C15_sign_goes_through_format : forall H token_sign key data alg sig,
+  sign_using_p11 H token_sign key data alg = OK sig ->
+  exists m d, format_data_for_signing H key data alg = OK (m, d) /\ token_sign key m d = OK sig /\ pk_cls key <> CKO_PUBLIC.
+Proof. exact sign_goes_through_format. Qed.
+Print Assumptions C15_sign_goes_through_format.
+
+Theorem C15_env_restored : forall e upd k, NoDup (map fst upd) ->
+  env_get (env_restore (env_update e upd) (env_save e upd)) k = env_get e k.
+Proof. exact env_restored. Qed.
+Print Assumptions C15_env_restored.
+
+(* Tie 1 *)
+Theorem C15_gen_mechanism_tables :
+  Gen.Hsm.mech_hash_on_hsm = table_of mech_hash_on_hsm /\ Gen.Hsm.mech_raw = table_of mech_raw /\
+  Gen.Hsm.mech_table_guard = "key.hash_using_hsm"%string.
+Proof. exact gen_mechanism_tables. Qed.
+Print Assumptions C15_gen_mechanism_tables.
+Theorem C15_gen_digestinfo :
+  Gen.Hsm.digestinfo = flat_map (fun a => match digestinfo a with Some (h, oid) => [(a, h, oid)] | None => [] end) [RSASHA1; RSASHA256; RSASHA512] /\
+  Gen.Hsm.emsa_sig_len = "pubkey.bits // 8"%string /\ Gen.Hsm.emsa_pad_len = "sig_len - len(oid_digest) - 3"%string /\
+  Gen.Hsm.emsa_pad = "b'\xff' * pad_len"%string /\ Gen.Hsm.emsa_oid_digest = "oid + digest"%string /\
+  Gen.Hsm.emsa_assembly = "bytes([0, 1]) + pad + b'\x00' + oid_digest"%string /\
+  Gen.Hsm.ecdsa_prehash = [(ECDSAP256SHA256, 256); (ECDSAP384SHA384, 384)] /\
+  Gen.Hsm.ec_oid_table = [([6;8;42;134;72;206;61;3;1;7], 256); ([6;5;43;129;4;0;34], 384)].
+Proof. exact gen_digestinfo. Qed.
+Print Assumptions C15_gen_digestinfo.
